@@ -120,3 +120,87 @@ def history_bound_rule(rep, u, fname="r_buf_rpos_init"):
                                          "the walk only compares block indices: r_buf_rpos_init(.., 100) on a ring of 40 after 7 blocks yields a position that "
                                          "r_buf_rpos_check treats as overrun (drop 48 for a reader that never fell behind)")
     return 1
+
+
+# ------------------------------------------------------------------ third pass (replays/C19-hunt3)
+
+def lapped_advance_rule(rep, u, fname="r_buf_rpos_inc"):
+    """a reader lapped between its data_get and its advance must not walk block-table entries the writer has rewritten: the
+    advance first checks that the reader position is still valid and leaves otherwise"""
+    from rules import r_mpt
+    fn = _need(u, fname)
+    rep.functions.add(fname)
+    reads = [pos for pos, r, x, _ in fn.nodes() if x.get("k") == "mem" and x["f"] == "iov_len" and "iov[" in key(x)]
+    if not reads:
+        raise driver.AnalysisBroken("%s: block-table reads not found" % fname)
+    checks = [(pos, c) for pos, r, c, _ in fn.calls({"r_buf_rpos_check_fast", "r_buf_rpos_check"})]
+    ok = False
+    for cpos, c in checks:
+        bid = cpos[0]
+        cnd = fn.blocks[bid].cond
+        if cnd is None or not all(fn.dominates(bid, p_[0]) and p_[0] != bid for p_ in reads):
+            continue
+        atoms = [y for y, _ in _walk(cnd) if y is c]
+        if not atoms:
+            continue
+        try:
+            v = r_mpt.eval_expr(cnd, {id(a): 0 for a in atoms})
+        except r_mpt.Unknown:
+            continue
+        s_ = fn.blocks[bid].succ[0] if v else fn.blocks[bid].succ[1]
+        if s_ is None or not any(p_[0] in fn.reach_from([s_], avoid=[bid]) for p_ in reads):
+            ok = True
+    desc = "%s: the block table is walked only for a reader position that passed the validity check" % fname
+    (rep.proved if ok else rep.violated)("R-LAPPED", fn, "advance-checks-reader", desc, "" if ok else
+                                         "a writer wrap between r_buf_data_get(40) and r_buf_rpos_inc(40) makes the advance count rewritten entries: the reader lands on a wrong old "
+                                         "block that still passes the check and three intact blocks are skipped with drop 0 (or the 'must never happen' branch traps)")
+    return 1
+
+
+def stale_drop_rule(rep, u, fname="r_buf_rpos_check"):
+    """the amount reported as dropped for an overrun reader is not computed from the block-table entry at the READER's index:
+    that entry belongs to the newer round by then (larger blocks in the newer round: under-report; see also the
+    over-estimate kept as replays/C19-hunt2/drop_estimate).  Each such computation is one instance."""
+    fn = _need(u, fname)
+    rep.functions.add(fname)
+    n = 0
+    for pos, root, x, ps in fn.nodes():
+        if not (x.get("k") == "bin" and x["op"] == "=" and core.is_ref(core.strip_casts(x["x"]), name="drop_size")):
+            continue
+        uses = [y for y, _ in _walk(x["y"]) if y.get("k") == "sub" and "rpos->iov_index" in key(y["i"]) and "iov" in key(y["b"])]
+        if not uses:
+            continue
+        # an entry above the writer's current index has not been rewritten in this round: `rpos->iov_index > r_buf->iov_index`
+        # on the way (true edge) makes the entry the reader's own
+        fresh = False
+        for bid in fn.reachable_blocks():
+            c = fn.blocks[bid].cond
+            if c is None or not fn.dominates(bid, pos[0]) or bid == pos[0]:
+                continue
+            for y, _ in _walk(c):
+                if y.get("k") == "bin" and y["op"] in (">", "<"):
+                    a, b = key(core.strip_casts(y["x"])), key(core.strip_casts(y["y"]))
+                    hi, lo = (a, b) if y["op"] == ">" else (b, a)
+                    if hi == "rpos->iov_index" and lo == "r_buf->iov_index":
+                        t_ = fn.blocks[bid].succ[0]
+                        f_ = fn.blocks[bid].succ[1]
+                        if t_ is not None and (pos[0] == t_ or pos[0] in fn.reach_from([t_], avoid=[bid])) and not (f_ is not None and (pos[0] == f_ or pos[0] in fn.reach_from([f_], avoid=[bid]))):
+                            fresh = True
+        if fresh:
+            continue
+        n += 1
+        # named by the case it serves (stable against line moves and against a further computation being added)
+        case = "older-rounds"
+        for bid in fn.reachable_blocks():
+            c = fn.blocks[bid].cond
+            if c is not None and fn.dominates(bid, pos[0]) and bid != pos[0] and "round_num+1" in key(c).replace(" ", "") and "==" in key(c):
+                t_ = fn.blocks[bid].succ[0]
+                if t_ is not None and (pos[0] == t_ or pos[0] in fn.reach_from([t_], avoid=[bid])):
+                    case = "previous-round"
+        rep.violated("R-STALEDROP", fn, "drop-from-reader-indexed-entry:%s" % case,
+                     "%s: the dropped amount does not depend on the block-table entry at the reader's (overrun) index" % fname,
+                     "drop_size at line %s is computed from %s, an entry the newer round has rewritten: ten 10-byte blocks, one read, then two 45-byte blocks report 145 dropped for "
+                     "180 skipped" % (x.get("ln"), key(uses[0])[:40]), x.get("ln"))
+    if n == 0:
+        rep.proved("R-STALEDROP", fn, "drop-from-reader-indexed-entry", "%s: the dropped amount does not depend on the block-table entry at the reader's index" % fname, "")
+    return max(n, 1)
